@@ -88,6 +88,8 @@ func (f *Gte) Call(s *slip.Scope, args slip.List, depth int) slip.Object {
 		case slip.Complex:
 			slip.TypePanic(s, depth, "numbers", arg, "real")
 		}
+		// Each argument is compared to the one before it.
+		target = args[pos]
 	}
 	return slip.True
 }
